@@ -736,7 +736,21 @@ def binary_data_io(ctx, R, quals, why):
         if fi is None:
             out.append(ctx.inc(R, None, None, f"function {q} not found", construct=k))
             continue
-        opens = [c for c in body_nodes(fi) if isinstance(c, ast.Call) and common.ext_name(ctx, fi, c) in ("builtins.open", "io.open", "gzip.open", "bz2.open", "lzma.open")]
+        fns = [fi]
+        for c0 in body_nodes(fi):
+            if isinstance(c0, ast.Call):
+                for tq in common.targets_of(ctx, fi, c0):
+                    g = ctx.prog.funcs.get(tq)
+                    if g is not None and g is not fi and not g.module.is_dep and g.module.name.startswith("signac") and g not in fns \
+                            and any(isinstance(x, ast.Call) and common.ext_name(ctx, g, x) in ("builtins.open", "io.open", "gzip.open", "json.loads", "json.load") for x in body_nodes(g)):
+                        fns.append(g)
+        opens = [c for g in fns for c in body_nodes(g) if isinstance(c, ast.Call) and common.ext_name(ctx, g, c) in ("builtins.open", "io.open", "gzip.open", "bz2.open", "lzma.open")]
+        lenient = [c for g in fns for c in body_nodes(g) if isinstance(c, ast.Call) and isinstance(c.func, ast.Attribute) and c.func.attr in ("decode", "encode")
+                   and (len(c.args) >= 2 or kwarg(c, "errors") is not None) and ctx.fold(c.args[1] if len(c.args) >= 2 else kwarg(c, "errors"), fi) not in ("strict",)]
+        if lenient:
+            out.append(ctx.viol(R, fi, lenient[0], f"`{canon(lenient[0])[:60]}` decodes a signac data file leniently: bytes that are not valid UTF-8 are dropped / replaced, so a damaged state point "
+                                "file whose damage happens to fall on insignificant white space hashes to its id and is accepted as intact", construct=k))
+            continue
         bad = None
         for c in opens:
             m = kwarg(c, "mode") or (c.args[1] if len(c.args) > 1 else None)
@@ -749,4 +763,91 @@ def binary_data_io(ctx, R, quals, why):
             out.append(ctx.viol(R, fi, c, f"`{canon(c)[:60]}` opens a signac data file in text mode {mode!r} without encoding=: the bytes are interpreted in the locale's encoding, {why}", construct=k))
         else:
             out.append(ctx.ok(R, fi, fi.node, f"{len(opens)} file open(s): binary or with explicit encoding", construct=k, nontrivial=bool(opens)))
+    return out
+
+
+def handler_order(ctx, R, modules):
+    """In a try statement a handler for a class shadows every later handler for one of its subclasses (except LookupError before except KeyError): the later
+    handler is dead and its case is answered by the earlier one.  One aggregated instance per module."""
+    from ..exc import ExcFacts
+    ex = ExcFacts(ctx)
+    out = []
+    for mq in modules:
+        n = 0
+        hit = None
+        for fi in ctx.prog.functions_of_module(mq):
+            for t in [x for x in body_nodes(fi) if isinstance(x, ast.Try)]:
+                seen = []
+                for h in t.handlers:
+                    types = ex.handler_type_names(fi, h)
+                    n += 1
+                    for ty in types:
+                        for (eh, ets) in seen:
+                            if any(ex.catches([e], ty) for e in ets):
+                                hit = hit or (fi, h, ty, ets)
+                    seen.append((h, types))
+        k = f"{mq}|handler-order"
+        if hit:
+            fi, h, ty, ets = hit
+            out.append(ctx.viol(R, fi, h, f"`except {ty.split(':')[-1]}` comes after `except {', '.join(e.split(':')[-1] for e in ets)}`, which already catches it: this handler is dead code and its "
+                                "case (e.g. 'no such job' -> KeyError) is reported by the earlier handler as something else ('several jobs match')", construct=k))
+        else:
+            out.append(ctx.ok(R, None, None, f"{mq}: {n} exception handlers, none shadowed by an earlier handler of the same try", construct=k, nontrivial=n > 0))
+    return out
+
+
+def strip_is_not_removeprefix(ctx, R, modules):
+    """str.strip / lstrip / rstrip take a *set of characters*, not a prefix or suffix: with an argument of two or more characters they also eat leading / trailing
+    characters of the payload ('.cache'.lstrip('./') == 'cache').  One aggregated instance per module."""
+    out = []
+    for mq in modules:
+        n = 0
+        hit = None
+        for fi in ctx.prog.functions_of_module(mq):
+            for c in body_nodes(fi):
+                if isinstance(c, ast.Call) and isinstance(c.func, ast.Attribute) and c.func.attr in ("strip", "lstrip", "rstrip") and c.args:
+                    n += 1
+                    v = ctx.fold(c.args[0], fi)
+                    if isinstance(v, str) and len(set(v)) >= 2 and not v.isspace():
+                        hit = hit or (fi, c, v)
+        k = f"{mq}|strip-charset"
+        if hit:
+            fi, c, v = hit
+            out.append(ctx.viol(R, fi, c, f"`{canon(c)[:60]}` strips the character set {sorted(set(v))}, not the text {v!r}: names that begin / end with one of these characters lose them "
+                                "(a hidden directory '.cache' becomes 'cache'), so files are stored under another path than the one they were read from", construct=k))
+        else:
+            out.append(ctx.ok(R, None, None, f"{mq}: {n} strip() call(s) with an argument, all with a single character", construct=k, nontrivial=n > 0))
+    return out
+
+
+def contextmanager_exit_on_error(ctx, R, modules):
+    """A generator-based context manager (contextlib.contextmanager) that has something to do after the `yield` must do it also when the body of the `with`
+    raises: the yield sits inside try/finally (or a try whose handlers clean up and re-raise) or inside another `with`."""
+    out = []
+    for mq in modules:
+        for fi in ctx.prog.functions_of_module(mq):
+            if not any("contextmanager" in d for d in fi.decorators):
+                continue
+            pm = ctx.parents(fi)
+            cfg = ctx.cfg(fi)
+            for y in [n for n in body_nodes(fi) if isinstance(n, ast.Yield)]:
+                cur = pm.get(id(y))
+                prot = False
+                while cur is not None and cur is not fi.node:
+                    if isinstance(cur, ast.Try) and (cur.finalbody or cur.handlers):
+                        prot = True
+                    if isinstance(cur, (ast.With, ast.AsyncWith)):
+                        prot = True
+                    cur = pm.get(id(cur))
+                st = ctx.stmt_of(fi, y)
+                after = False
+                for nid in cfg.node_ids_for(st):
+                    reach = cfg.reachable([nid], kinds="n") - {nid}
+                    after = after or any(cfg.nodes[i].kind == "stmt" and not isinstance(cfg.nodes[i].ast, (ast.Pass,)) for i in reach)
+                k = f"{fi.qual}|yield-protected|L{[x for x in body_nodes(fi) if isinstance(x, ast.Yield)].index(y)}"
+                if prot or not after:
+                    out.append(ctx.ok(R, fi, y, "the clean-up after the yield also runs when the with-body raises" if after else "nothing to clean up after the yield", construct=k, nontrivial=after))
+                else:
+                    out.append(ctx.viol(R, fi, y, f"{fi.name}() is a generator-based context manager with work after the `yield` but no try/finally around it: when the body of the `with` raises, "
+                                        "the generator is closed at the yield and the clean-up (leaving buffered mode and flushing, removing a backup ...) never runs", construct=k))
     return out
